@@ -10,14 +10,20 @@
 (***************************************************************************)
 EXTENDS Logix, Json
 
-CONSTANTS T1, T2, Budget, Depth, Rich   \* Rich: TRUE = larger request set
+CONSTANTS T1, T2, Budget, Depth, Rich,  \* Rich: TRUE = larger request set
+          Many                           \* TRUE: twelve auto-allocated tags instead (allocation of many tags)
 
 Chars(s) == s
-MCfg == [ budget |-> Budget,
+ManyCfg == [ budget |-> Budget,
+             tags |-> [ i \in 1 .. 12 |-> [name |-> <<64 + i>>, type |-> (IF i % 3 = 0 THEN T2 ELSE T1),
+                                           len |-> (IF i % 2 = 0 THEN 1 ELSE 2), scalar |-> (i % 2 = 0), cia |-> <<2, 1, i>>] ] ]
+FourCfg == [ budget |-> Budget,
           tags |-> << [name |-> <<65>>,        type |-> T1, len |-> 3, scalar |-> FALSE, cia |-> <<2, 1, 1>>],
                       [name |-> <<66, 98>>,    type |-> T1, len |-> 1, scalar |-> TRUE,  cia |-> <<2, 1, 2>>],
                       [name |-> <<67, 95, 51>>, type |-> T2, len |-> 2, scalar |-> FALSE, cia |-> <<153, 1, 2>>],
                       [name |-> <<68>>,        type |-> T2, len |-> 1, scalar |-> FALSE, cia |-> <<153, 1, 3>>] >> ]
+
+MCfg == IF Many THEN ManyCfg ELSE FourCfg
 
 (* value domains: boundary values of every type, as element octets *)
 Vals(t) ==
@@ -73,6 +79,9 @@ TagReqs(t) ==
        m \in modes, i \in 0 .. (L - 1), n \in 1 .. (L + 1), off \in {0, szz, 2 * szz},
        ty \in (IF Rich THEN WriteTypes(U) ELSE {U}), k \in 1 .. (L + 1), s \in 1 .. (IF Rich THEN NV ELSE 1) }
   \cup
+  { R("writef", t, "sym", 0, L, off, ty, ValSeq(ty, 1, s), <<>>) :          \* cross-type fragments at every element offset
+       off \in { j * szz : j \in 0 .. (L - 1) }, ty \in WriteTypes(U), s \in 1 .. NV }
+  \cup
   (IF sz = 0 THEN {} ELSE
    { R("gas", t, "cia", 0 - 1, 0, 0, U, <<>>, <<>>) } \cup
    { R("sas", t, "cia", 0 - 1, 0, 0, U, <<>>, EncElems(U, ValSeq(U, k, s))) : k \in {L, L + 1} \cup (IF L > 1 THEN {L - 1} ELSE {}), s \in 1 .. NV })
@@ -80,7 +89,12 @@ TagReqs(t) ==
 UnknownReqs == { R("read", 0, "sym", 0 - 1, 1, 0, T1, <<>>, <<>>),
                  R("write", 0, "sym", 0, 1, 0, T1, ValSeq(T1, 1, 1), <<>>) }
 
-MReqs == UNION { TagReqs(t) : t \in 1 .. Len(MCfg.tags) } \cup UnknownReqs
+\* many-tags configuration: whole-tag reads and writes of every tag, both addressing modes
+ManyReqs == UNION { { R("read", t, m, 0 - 1, MCfg.tags[t].len, 0, MCfg.tags[t].type, <<>>, <<>>) : m \in {"sym", "cia"} }
+                    \cup { R("write", t, m, 0, MCfg.tags[t].len, 0, MCfg.tags[t].type,
+                             ValSeq(MCfg.tags[t].type, MCfg.tags[t].len, 1 + (t % NV)), <<>>) : m \in {"sym", "cia"} }
+                    : t \in 1 .. Len(MCfg.tags) }
+MReqs == IF Many THEN ManyReqs ELSE UNION { TagReqs(t) : t \in 1 .. Len(MCfg.tags) } \cup UnknownReqs
 
 \* ---- emission for replay: the request catalogue once, every distinct reachable memory
 ASSUME PrintT(ToJson([k |-> "cfg", cfg |-> MCfg]))
@@ -91,4 +105,27 @@ MemDepth == <<mem, depth>>
 \* writes only (the steps that change memory) when enumerating memories for emission
 EmitNext == depth < MaxDepth /\ depth' = depth + 1
             /\ \E r \in { q \in MReqs : q.svc \in {"write", "writef", "sas"} } : Do(r)
+
+\* ---- C07: bundles over a small basis of member requests (valid and invalid, all services, two objects)
+FirstRefused(U) == CHOOSE ty \in AllTypes : MustRefuse(ty, U) /\ \A o \in AllTypes : MustRefuse(o, U) => TypeCode(ty) <= TypeCode(o)
+CoreOf(t) ==
+  LET T == MCfg.tags[t]  U == T.type  L == T.len  sz == Size(U)  szz == IF sz = 0 THEN 1 ELSE sz IN
+  { R("read",  t, "sym", 0 - 1, L, 0, U, <<>>, <<>>),
+    R("read",  t, "cia", 1, L, 0, U, <<>>, <<>>),                         \* beyond the end: refused
+    R("readf", t, "sym", 0, L, szz, U, <<>>, <<>>),
+    R("write", t, "sym", 1, 1, 0, U, ValSeq(U, 1, 1), <<>>),
+    R("write", t, "cia", 0, L, 0, U, ValSeq(U, L, 2), <<>>),
+    R("write", t, "sym", 0, 1, 0, FirstRefused(U), ValSeq(FirstRefused(U), 1, 1), <<>>),   \* type mismatch: refused
+    R("writef", t, "sym", 0, L, szz, U, ValSeq(U, 1, 2), <<>>) }
+  \cup (IF sz = 0 THEN {} ELSE
+        { R("gas", t, "cia", 0 - 1, 0, 0, U, <<>>, <<>>),
+          R("sas", t, "cia", 0 - 1, 0, 0, U, <<>>, EncElems(U, ValSeq(U, L, 2))) })
+CoreReqs == CoreOf(1) \cup CoreOf(3) \cup { R("read", 0, "sym", 0 - 1, 1, 0, T1, <<>>, <<>>) }
+
+Multi(ms) == [svc |-> "multi", tag |-> 0, mode |-> "sym", idx |-> 0 - 1, n |-> 0, off |-> 0, typ |-> T1, vals |-> <<>>,
+              bytes |-> <<>>, ms |-> ms]
+BundleSet(maxn) == UNION { [1 .. k -> CoreReqs] : k \in 1 .. maxn }
+EmitBundle(ms) == LET mb == [ i \in 1 .. Len(ms) |-> EncReq(MCfg, ms[i]) ] IN
+                  /\ MSPOffsetLaw(mb)
+                  /\ PrintT(ToJson([k |-> "bundle", r |-> Multi(ms), b |-> EncReq(MCfg, Multi(ms)), mb |-> mb]))
 =============================================================================
